@@ -9,6 +9,7 @@ use vstd::std_specs::btree::key_obeys_cmp_spec;
 use vstd::std_specs::iter::IteratorSpec;
 use vstd::std_specs::cmp::{PartialEqSpecImpl, PartialOrdSpecImpl, PartialEqSpec, PartialOrdSpec};
 use crate::spec::*;
+use crate::stdx::*;
 use crate::{CmRDT, CvRDT, Dot, DotRange, ResetRemove};
 verus! {
 
@@ -367,6 +368,45 @@ impl<A: Ord> VClock<A> {
 //@end
 }
 
+
+impl<A: Ord> VClock<A> {
+//@extract fn src/vclock.rs "VClock" glb
+    pub fn glb(&mut self, other: &Self)
+    //@ requires actor_ok::<A>(),
+    //@ ensures is_meet(final(self)@, old(self)@, other@), nz(final(self)@),
+    {
+        self.dots = /*@ shim_btreemap_filter_map_collect( @*/ mem::take(&mut self.dots)
+            /*@<*/ .into_iter()
+            .filter_map( /*@>*/ /*@ , @*/ /*@<*/ |(actor, count)| /*@>*/ /*@ |p: (A, u64)| -> (o: Option<(A, u64)>) ensures o == (if min64(p.1, cnt(other@, p.0)) == 0 { None } else { Some((p.0, min64(p.1, cnt(other@, p.0)))) }) { let (actor, count) = p; @*/ {
+                // Since an actor missing from the dots map has an implied
+                // counter of 0 we can save some memory, and remove the actor.
+                let min_count = cmp::min(count, other.get(&actor));
+                match min_count {
+                    0 => None,
+                    _ => Some((actor, min_count)),
+                }
+            } /*@ } @*/ )
+            /*@<*/ .collect() /*@>*/ ;
+        //@ proof { assert forall|a: A| #[trigger] cnt(self@, a) == min64(cnt(old(self)@, a), cnt(other@, a)) by { if old(self)@.contains_key(a) { if self@.contains_key(a) {} else {} } else { if self@.contains_key(a) {} } } }
+    }
+//@end
+}
+
+impl<A: Ord + Clone> vstd::std_specs::convert::FromSpecImpl<Dot<A>> for VClock<A> {
+    open spec fn obeys_from_spec() -> bool { false }
+    uninterp spec fn from_spec(v: Dot<A>) -> Self;
+}
+impl<A: Ord + Clone> From<Dot<A>> for VClock<A> {
+//@extract fn src/vclock.rs "From for VClock" from
+    fn from(dot: Dot<A>) -> /*@ (r: @*/ Self /*@ ) @*/
+    //@ ensures actor_ok::<A>() ==> r@ == (if dot.counter > 0 { SMap::<A, u64>::empty().insert(dot.actor, dot.counter) } else { SMap::<A, u64>::empty() }),
+    {
+        let mut clock = VClock::default();
+        clock.apply(dot);
+        clock
+    }
+//@end
+}
 
 // ---------------------------------------------------------------------------------------------
 // OUT OF REACH (assumed contracts, bounded stand-in in the replay crate: `standin vclock_iter`).
